@@ -3,7 +3,7 @@
 //
 //	corr gen  <Cxx> <tier> <seed> <outdir>   corpus + generated cases → ops.txt impl.txt oracle.txt stats.json
 //	corr exec <Cxx>                           case lines on stdin → "impl<TAB>oracle" per line
-package main
+package h
 
 import (
 	"bufio"
@@ -15,18 +15,16 @@ import (
 	"sort"
 	"strconv"
 	"strings"
-
-	"verifharness/internal/h"
 )
 
-func main() {
+func Main() {
 	if len(os.Args) < 3 {
 		fmt.Fprintln(os.Stderr, "usage: corr gen|exec <Cxx> ...")
 		os.Exit(2)
 	}
-	p := h.Lookup(os.Args[2])
+	p := Lookup(os.Args[2])
 	if p == nil {
-		fmt.Fprintln(os.Stderr, "unknown property", os.Args[2], "have", h.IDs())
+		fmt.Fprintln(os.Stderr, "unknown property", os.Args[2], "have", IDs())
 		os.Exit(2)
 	}
 	switch os.Args[1] {
@@ -39,7 +37,7 @@ func main() {
 			if line == "" {
 				continue
 			}
-			r := h.SafeExec(p, line)
+			r := SafeExec(p, line)
 			fmt.Fprintf(w, "%s\t%s\n", r.Impl, r.Oracle)
 			w.Flush()
 		}
@@ -57,7 +55,7 @@ func main() {
 	}
 }
 
-func gen(p *h.Prop, tier string, seed uint64, out string) {
+func gen(p *Prop, tier string, seed uint64, out string) {
 	os.MkdirAll(out, 0o755)
 	ops, _ := os.Create(filepath.Join(out, "ops.txt"))
 	impl, _ := os.Create(filepath.Join(out, "impl.txt"))
@@ -68,7 +66,7 @@ func gen(p *h.Prop, tier string, seed uint64, out string) {
 	var samples []string
 	n, viol, corpusN := 0, 0, 0
 	run := func(line string) {
-		r := h.SafeExec(p, line)
+		r := SafeExec(p, line)
 		fmt.Fprintln(wo, line)
 		fmt.Fprintln(wi, r.Impl)
 		if r.Oracle != "" {
@@ -87,7 +85,7 @@ func gen(p *h.Prop, tier string, seed uint64, out string) {
 			if len(s) > 300 {
 				s = s[:300] + "…"
 			}
-			samples = append(samples, s+"  =>  "+h.OneLine(r.Impl))
+			samples = append(samples, s+"  =>  "+OneLine(r.Impl))
 		}
 		n++
 	}
@@ -106,7 +104,7 @@ func gen(p *h.Prop, tier string, seed uint64, out string) {
 			}
 		}
 	}
-	p.Gen(tier, h.NewRng(seed), run)
+	p.Gen(tier, NewRng(seed), run)
 	wo.Flush()
 	wi.Flush()
 	wr.Flush()
